@@ -5,7 +5,7 @@
 EXTENDS Forwarder, Json
 CONSTANTS Depth, OutDir
 VARIABLE hist
-GNames == { <<"a">>, <<"a","b">>, <<"a","b","c">>, <<"localhost","x">> }
+GNames == { <<"a">>, <<"a","b">>, <<"a","b","c">>, <<"localhost","x">>, <<>> }
 GData  == { <<"a">>, <<"a","b">>, <<"a","b","c">>, <<"a","b","c","e">>, <<"localhost","x">>, <<"localhost","x","y">> }
 Init == /\ now = 0 /\ up = Faces /\ pit = Empty /\ nextTok = 1 /\ dnl = Empty
         /\ cs = Empty /\ lru = <<>> /\ cap = 1 /\ csAdmit = TRUE /\ csServe = TRUE
@@ -18,7 +18,7 @@ DnlKnown(n, nonce) == [name |-> n, nonce |-> nonce] \in DOMAIN dnl
 Toks == { pit[k].tok : k \in DOMAIN pit }
 IWith(i) == LET j == [i EXCEPT !.dtok = i.f * 10, !.dnl = DnlKnown(i.n, i.nonce)]
             IN \E csn \in ImplCsSet(j) : \E S \in ImplSSet(j, csn) :
-                RecvInterest(j, [S |-> S, csn |-> csn, ex |-> ImplEx(j, csn), dins |-> ImplDinsI(j, csn)])
+                RecvInterest(j, [S |-> S, csn |-> (IF ScopeOk(j.f, csn) THEN csn ELSE NoName), hit |-> csn # NoName, ex |-> ImplEx(j, csn), dins |-> ImplDinsI(j, csn)])
 IStep == IWith([f |-> RandomElement(Faces), n |-> RandomElement(GNames), cbp |-> RandomElement({FALSE, FALSE, TRUE}),
                 mbf |-> RandomElement({FALSE, FALSE, TRUE}), nonce |-> RandomElement({7, 8, 9}), life |-> RandomElement({1, 2, 3}),
                 hop |-> RandomElement({-1, -1, -1, 0, 1, 2}), hints |-> <<>>, nh |-> -1, dtok |-> 0, dnl |-> FALSE])
